@@ -132,6 +132,9 @@ func runC09(c *core.Ctx) {
 		if !c.Mine(idx) {
 			continue
 		}
+		if c.Enough() {
+			break
+		}
 		id := fmt.Sprintf("t%d", idx)
 		if !c.Case(id) {
 			continue
